@@ -5,7 +5,8 @@ from core import World, hx, Line, parse_fs
 from gen import Gen, mode_line, cfg_line
 from suites import run_suite, parse_snap
 
-LEAN_MODULES = ['GoSnaps.Props.C14', 'GoSnaps.DriverX', 'GoSnaps.Lemmas.Json', 'GoSnaps.Props.C14Json', 'GoSnaps.Props.Tie.Flows', 'GoSnaps.Props.Tie.Wrappers', 'GoSnaps.Props.Tie.Pipeline']
+LEAN_MODULES = ['GoSnaps.Props.C14', 'GoSnaps.DriverX', 'GoSnaps.Lemmas.Json', 'GoSnaps.Props.C14Json', 'GoSnaps.Props.Tie.Flows', 'GoSnaps.Props.Tie.Wrappers', 'GoSnaps.Props.Tie.Pipeline',
+                'GoSnaps.Lemmas.JsonEndToEnd', 'GoSnaps.Props.Tie.JsonEndToEnd']
 
 
 def gen_value(r, depth=0, simple_numbers=False):
